@@ -1262,7 +1262,8 @@ pub mod exp10 {
     use super::*;
 
     pub fn byte(a: u8) -> f64 {
-        10f64.powi(a as i32)
+        // The same function as for numbers, so that the result does not depend on the storage
+        num(a as f64)
     }
     pub fn num(a: f64) -> f64 {
         10f64.powf(a)
